@@ -300,9 +300,12 @@ func TestEventsThroughPipeline(t *testing.T) {
 							msg.Type = pb.EventV2_Success
 						}
 						b, _ := proto.Marshal(msg)
-						req := httptest.NewRequest("POST", "/v2/event", bytes.NewReader(b))
+						// as under net/http: the request's context ends when the handler has answered
+						rctx, rcancel := context.WithCancel(context.Background())
+						req := httptest.NewRequest("POST", "/v2/event", bytes.NewReader(b)).WithContext(rctx)
 						rec := httptest.NewRecorder()
 						srv.Router.ServeHTTP(rec, req)
+						rcancel()
 						if rec.Code != 202 {
 							t.Errorf("VSIG[C19:http-event-refused] /v2/event answered %d", rec.Code)
 						}
